@@ -172,14 +172,16 @@ impl DcpsDomainParticipant {
             .cloned()
     }
 
-    #[tracing::instrument(skip(self))]
+    #[tracing::instrument(skip(self, runtime))]
     pub fn register_instance(
         &mut self,
         publisher_handle: &InstanceHandle,
         data_writer_handle: &InstanceHandle,
         dynamic_data: &DynamicData<'static>,
-        timestamp: Time,
+        _timestamp: Time,
+        runtime: &impl DdsRuntime,
     ) -> DdsResult<Option<InstanceHandle>> {
+        let now = runtime.clock().now();
         let Some(publisher) = self
             .domain_participant
             .user_defined_publisher_list
@@ -202,7 +204,7 @@ impl DcpsDomainParticipant {
             .find(|x| x.topic_name == data_writer.topic_name)
             .expect("Writer topic must exist");
 
-        data_writer.register_w_timestamp(dynamic_data, &topic.type_support, timestamp)
+        data_writer.register_w_timestamp(dynamic_data, &topic.type_support, now)
     }
 
     #[tracing::instrument(skip(self, runtime))]
